@@ -155,6 +155,23 @@ Theorem C02_sweep_removes_stale_from : forall (A : Type) (self : Z) (evs : list 
 Proof. exact thm_sweep_removes_stale. Qed.
 Print Assumptions C02_sweep_removes_stale_from.
 
+(* one wake-up, exactly: for EVERY group id (0 and 65535 included) the cluster is kept with its counter
+   decremented, or removed when its own counter reaches 0; ids that were absent stay absent *)
+Theorem C02_sweep_removes_exactly : forall (A : Type) (st : state A), NoDup (map fst st) -> forall g,
+  lookup g (sweep st) =
+  match lookup g st with
+  | Some c => if u8 (c_c c - 1) =? 0 then None
+              else Some (mkCluster (c_max c) (c_e c) (u8 (c_c c - 1)) (c_data c))
+  | None => None
+  end.
+Proof. exact thm_sweep_removes_exactly. Qed.
+Print Assumptions C02_sweep_removes_exactly.
+
+Theorem C02_sweep_keys_exactly : forall (A : Type) (st : state A), NoDup (map fst st) -> forall g,
+  In g (map fst (sweep st)) <-> exists c, lookup g st = Some c /\ u8 (c_c c - 1) <> 0.
+Proof. exact thm_sweep_keys_exactly. Qed.
+Print Assumptions C02_sweep_keys_exactly.
+
 (* one wake-up decrements the counter of a cluster and removes it exactly when the counter is used up *)
 Theorem C02_sweep_counts_down : forall (A : Type) (g : Z) (st : state A) (c : cluster A),
   NoDup (map fst st) -> lookup g st = Some c ->
